@@ -140,6 +140,12 @@ def shared_jobs(tier, s0, names=None):
             for mm in ('min', 'max'):
                 jobs.append((_scn(n, 'cont3z', mm, cycles=3, seed=s0, over={'population_size': pop},
                                   small_population=True), {'d': 0}))
+    # (E3) every population size from documented + 4 to documented + 16 (sizes at which a heap level, a cluster or a
+    #      pairing starts or ends), d = 0
+    for n in names:
+        for add in range(4, 17):
+            jobs.append((_scn(n, cycles=2, seed=s0, over={'population_size': registry.doc_population(n) + add},
+                              odd_population=True), {'d': 0}))
     # (F) one-parameter deviations of every algorithm parameter to its neighbouring accepted values (d = 0); the
     #     population-size equality of C10 is not claimed under them (DESIGN C10), only its bounds
     for n in names:
@@ -162,7 +168,19 @@ def shared_jobs(tier, s0, names=None):
 
 
 # ---------------------------------------------------------------------------------------------------------------
+_TREE_HASH = None
+
+
 def tree_hash():
+    """content hash of the code under test and of the machinery, taken ONCE per process (a long run keeps the code it
+    imported; files edited meanwhile must not relabel its results)"""
+    global _TREE_HASH
+    if _TREE_HASH is None:
+        _TREE_HASH = _tree_hash()
+    return _TREE_HASH
+
+
+def _tree_hash():
     h = hashlib.sha256()
     for root in (REPO_PKG, os.path.join(VERIF, 'mc')):
         for dp, dn, fn in sorted(os.walk(root)):
